@@ -6,6 +6,7 @@ compared with the declarative reference model (ref/hmodel.py), every distinct st
 checked.  Other properties (C03, C05, C11, C17) reuse `state_graph` to quantify over all states.
 """
 import itertools
+import os
 
 import numpy as np
 
@@ -578,8 +579,14 @@ def run(ctx):
     big = [c for c in allrows if c["row"] in BIG_ROWS]
     # small rows: one row per worker (explored serially inside); big rows: frontier split over workers
     results = par.pmap(_row_worker, [(c, cap) for c in small], min_parallel=2, chunk=1)
+    # big rows are explored breadth-first up to a state cap (reported as a cap in the evidence when it is hit: everything
+    # up to the reported depth is covered completely)
+    cap_big = int(os.environ.get("VERIF_C04_BIGCAP", "12000"))
     for cfg in big:
-        results.append((cfg, state_graph(cfg, cap=cap)))
+        g = state_graph(cfg, cap=cap_big)
+        results.append((cfg, g))
+        if not g.closed:
+            out.caps_hit.append("%s: state cap %d hit at depth %d" % (row_name(cfg), cap_big, g.max_depth))
         ctx.log("big row %s done" % row_name(cfg))
     for cfg, g in results:
         out.states += g.states
@@ -588,7 +595,7 @@ def run(ctx):
         out.part(cfg["row"], configs=1, states=g.states, transitions=g.transitions)
         out.nontrivial.add(row_name(cfg))
         out.outcomes.add((cfg["row"], g.states))
-        if not g.closed:
+        if not g.closed and cfg["row"] not in BIG_ROWS:
             out.caps_hit.append("%s: state cap %d hit at depth %d" % (row_name(cfg), cap, g.max_depth))
         for kind, hist, ev, (key, msg) in g.problems:
             h = list(hist) + ([ev] if ev is not None else [])
